@@ -171,14 +171,18 @@ def run_harness_stage(pid, stage, tier, seed, known_sigs, only=None):
         if only:
             cmd += ["--only", only]
         logf = open(os.path.join(out, "shard%d.log" % k), "wb")
-        procs.append((k, subprocess.Popen(cmd, stdout=logf, stderr=subprocess.STDOUT, env=env, cwd=out), logf))
+        procs.append((k, subprocess.Popen(cmd, stdout=logf, stderr=subprocess.STDOUT, env=env, cwd=out,
+                                          start_new_session=True), logf))
     timeout = stage.get("timeout_%s" % tier, 1500 if tier == "thorough" else 400)
     deadline = time.time() + timeout
     for k, p, logf in procs:
         try:
             p.wait(timeout=max(1, deadline - time.time()))
         except subprocess.TimeoutExpired:
-            p.kill()
+            try:
+                os.killpg(p.pid, 9)  # the shard and everything it spawned (children of C15 cases...)
+            except OSError:
+                p.kill()
             p.wait()
             res.notes.append("shard %d of %s stopped at the %ds budget (inconclusive, not a violation)" % (k, stage["name"], timeout))
         logf.close()
@@ -384,8 +388,24 @@ def run_check(pid, tier, only=None):
         results.append(r)
         infra += r.infra_errors
 
-    # --- confirm failures, write replay files
+    # --- regression tier: saved cases under corpus/<id>/*.case are re-executed first-class on every run
     violations = []
+    corpus_dir = os.path.join(VERIF, "corpus", pid.lower())
+    known_repros = {os.path.abspath(os.path.join(VERIF, k["repro_file"])) for k in known_open if k.get("repro_file")}
+    regress_n = 0
+    if os.path.isdir(corpus_dir) and not only:
+        for fn in sorted(os.listdir(corpus_dir)):
+            path = os.path.join(corpus_dir, fn)
+            if not fn.endswith(".case") or os.path.abspath(path) in known_repros:
+                continue
+            st_obj = find_stage_for_replay(P, path)
+            if tier == "quick" and st_obj.get("thorough_only"):
+                continue
+            st, sig, text = stage_replayer(st_obj)(pid, st_obj, path, 1)
+            regress_n += 1
+            if st != "pass":
+                violations.append({"sig": "regression:%s:%s" % (fn, sig), "msg": text[-1500:], "path": path, "stage": st_obj["name"]})
+
     rdir = os.path.join(REPLAYS, pid)
     seen = set()
     unconfirmed = []
@@ -438,7 +458,13 @@ def run_check(pid, tier, only=None):
     notes = []
     if unconfirmed:
         notes.append("unconfirmed failures (not reproducible from the saved case): " + "; ".join(unconfirmed))
+    if regress_n:
+        notes.append("regression tier: %d saved cases from corpus/%s re-executed" % (regress_n, pid.lower()))
     ev = write_evidence(pid, P, tier, seed, results, wall, violations, known_lines, notes + infra)
+    for name, need in P.get("min_per_check_%s" % tier, {}).items():
+        got = ev["coverage"]["per_check_evaluations"].get(name, 0)
+        if got < need and not only:
+            infra.append("subcheck %s ran only %d evaluations (< %d): the tier did not reach its stated coverage" % (name, got, need))
     minimum = P.get("min_evaluations_%s" % tier, 1)
     if infra or (ev["coverage"]["evaluations"] < minimum and not violations):
         for e in infra:
